@@ -38,6 +38,10 @@ func genExpiryImpl(seed uint64, r *core.Rand) Scenario {
 		e.ReportMS = r.Pick(1000, 2000, 5000, 10000)
 	}
 	e.Horizon = r.Range(3, 5)
+	// hash-derived so that no other choice moves
+	if x := core.HS(seed, "c02.tunnel", "", 0); e.Peer == "live" && e.Transport == "tcp" && x%100 < 40 {
+		e.Tunnel = []string{"http", "http", "ws"}[(x>>8)%3]
+	}
 	sc.Exp = e
 	nc := simnet.Config{Seed: seed ^ 0x2020203}
 	nc.LatMinUS = r.Pick(10, 1000, 20000)
@@ -144,6 +148,14 @@ func runExpiryImpl(t *testing.T, sc Scenario) *core.Result {
 			defer close(stop)
 			if e.Peer == "live" {
 				c := &gortsplib.Client{Scheme: "rtsp", Host: "10.0.0.1:8554", Protocol: protoOf(e.Transport)}
+				switch e.Tunnel {
+				case "http":
+					c.Tunnel = gortsplib.TunnelHTTP
+					w.Probe("live_peer_http_tunnel")
+				case "ws":
+					c.Tunnel = gortsplib.TunnelWebSocket
+					w.Probe("live_peer_ws_tunnel")
+				}
 				sys.WireClient(c, cli, w.Net, nil)
 				c.OnPacketsLost = func(uint64) {}
 				c.OnDecodeError = func(error) {}
@@ -432,6 +444,11 @@ func shrinkExpiryImpl(sc Scenario) []Scenario {
 	if sc.Exp.Horizon > 3 {
 		c := clone()
 		c.Exp.Horizon = 3
+		out = append(out, c)
+	}
+	if sc.Exp.Tunnel != "" {
+		c := clone()
+		c.Exp.Tunnel = ""
 		out = append(out, c)
 	}
 	if sc.Net.ChunkMode != 0 {
